@@ -308,7 +308,11 @@ func gluelayerCreatedStep(c gluelayerOciCase, failed bool, imgs []*gluelayerImag
 	if state != "set" {
 		sde = "0"
 	}
-	tags := []string{"created", "created:sde:" + state, "created:pkgs:" + c.PkgDates}
+	pd := c.PkgDates
+	if pd == "" {
+		pd = "as generated"
+	}
+	tags := []string{"created", "created:sde:" + state, "created:pkgs:" + pd}
 	if c.BuildDate != "" {
 		tags = append(tags, "created:build-date:set")
 	} else {
@@ -629,6 +633,13 @@ func (gluelayerOciSuite) Run(raw json.RawMessage) []Step {
 	out = e2eBuild(img.IC, repo, opts)
 	if out.Err != nil && c.SDEState == "malformed" {
 		return gluelayerCreatedStep(c, true, nil, nil, desc+" => build failed: "+firstLine(out.Err.Error()))
+	}
+	if out.Err != nil && c.SDEState != "" {
+		// does the build fail because of what is exported?  the same build with nothing exported is the control
+		os.Unsetenv("SOURCE_DATE_EPOCH")
+		if ctl := e2eBuild(img.IC, repo, opts); ctl.Err == nil {
+			return gluelayerCreatedStep(c, true, nil, nil, desc+" => build failed (and succeeds with SOURCE_DATE_EPOCH not exported): "+firstLine(out.Err.Error()))
+		}
 	}
 	if out.Err != nil {
 		return []Step{{Line: "oci.e2e-wf\tbuild-error", Mode: "oracle-go", NoImpl: true, GoSpec: "pass", Trivial: true,
